@@ -11,16 +11,20 @@ JSON (no blank anywhere: the driver splits a line at blanks; names are identifie
   itree = {"id":N,"size":Z,"be":0|1,"top":[item…]}
   item  = {"t":"s","n":name,"s":start,"z":size}
         | {"t":"m","n":name,"s":start,"gc":groupCount,"gs":groupSize,
-           "ch":[{"n":name,"r":relStart,"z":size,"g":[ids…]}…]}          ("g":[] = fixed)
+           "ch":[child…]}
+  child = {"n":name,"r":relStart,"z":size,"g":[ids…]}                     ("g":[] = fixed)
+        | {"n":name,"r":relStart,"g":[ids…],"sub":{"gc":…,"gs":…,"ch":[child…]}}   (a nested multiplexer)
 
 Renderings (the same text is produced by harness/s_imp.go from the real objects):
   itree: id=… size=… be=… top=[s:name@start+size,M:name@start+size(w=…,gc=…,gs=…,ch=[name@rel/abs+size:F|id.id…,…],g=[[names of group 0],…]),…]
-         children sorted by (rel, name) — their registry is a Go map —, groups in layout order
+         children sorted by (rel, name) — their registry is a Go map —, groups in layout order;
+         a child that is a multiplexer carries its own body: name@rel/abs+size:ids{w=…,gc=…,gs=…,ch=[…],g=[…]}
   dmsg:  id=… size=… sigs=[name:-|M|m<k>|m<k>M:start|size@L|B,…] ext=[multiplexed/multiplexor:from-to.from-to,…]
 -/
 import Lean.Data.Json
 import Acme.Driver.Util
 import Acme.Core.Import
+import Acme.Core.ImportNested
 
 namespace Acme.Driver.ImportD
 open Lean (Json)
@@ -57,21 +61,38 @@ def dMsg (j : Json) : D DMsg := do
   pure { id := ← fNat j "id", size := ← fNat j "size", sigs := ← fList dSig j "sigs",
          exts := ← fList dExt j "ext" }
 
-def dChild (j : Json) : D Child := do
-  pure { name := ← fStr j "n", rel := ← fInt j "r", size := ← fInt j "z",
-         gids := ← fList (·.getInt?) j "g" }
+/-- a child; with a key "sub" ({"gc","gs","ch"}) it is a multiplexer whose node (and the nodes
+    below it) are returned as well; `fuel` bounds the depth -/
+def dChildN : Nat → Json → D (Child × List MuxNode)
+  | 0, _ => throw "depth"
+  | fuel + 1, j => do
+    let name ← fStr j "n"
+    let rel ← fInt j "r"
+    let gids ← fList (·.getInt?) j "g"
+    match j.getObjVal? "sub" with
+    | .ok sub =>
+      let kids ← fList (dChildN fuel) sub "ch"
+      let node : MuxNode :=
+        { name := name, start := 0, selW := 0, groupCount := ← fInt sub "gc", groupSize := ← fInt sub "gs",
+          children := kids.map (·.1) }
+      pure ({ name := name, rel := rel, size := 0, gids := gids, isMux := true }, node :: kids.flatMap (·.2))
+    | .error _ =>
+      pure ({ name := name, rel := rel, size := ← fInt j "z", gids := gids }, [])
 
-def dItem (j : Json) : D Item := do
+def dItemN (j : Json) : D (Item × List MuxNode) := do
   match ← fStr j "t" with
-  | "s" => pure (.sig { name := ← fStr j "n", start := ← fInt j "s", size := ← fInt j "z" })
-  | "m" => pure (.mux { name := ← fStr j "n", start := ← fInt j "s", selW := 0,
-                        groupCount := ← fInt j "gc", groupSize := ← fInt j "gs",
-                        children := ← fList dChild j "ch" })
+  | "s" => pure (.sig { name := ← fStr j "n", start := ← fInt j "s", size := ← fInt j "z" }, [])
+  | "m" =>
+    let kids ← fList (dChildN 8) j "ch"
+    pure (.mux { name := ← fStr j "n", start := ← fInt j "s", selW := 0,
+                 groupCount := ← fInt j "gc", groupSize := ← fInt j "gs",
+                 children := kids.map (·.1) }, kids.flatMap (·.2))
   | _ => throw "item"
 
 def dTree (j : Json) : D ITree := do
+  let items ← fList dItemN j "top"
   pure { id := ← fNat j "id", sizeByte := ← fInt j "size", bigEndian := ← fFlag j "be",
-         top := ← fList dItem j "top" }
+         top := items.map (·.1), nested := items.flatMap (·.2) }
 
 /-! ## renderings -/
 
@@ -82,21 +103,30 @@ def showIds (xs : List Int) : String :=
 
 def childLe (a b : Child) : Bool := a.rel < b.rel || (a.rel == b.rel && a.name ≤ b.name)
 
-def showChild (n : MuxNode) (c : Child) : String :=
-  s!"{c.name}@{c.rel}/{n.start + n.selW + c.rel}+{c.size}:{showIds c.gids}"
-
 def showGroups (n : MuxNode) : String :=
   showList ((List.range n.groupCount.toNat).map (fun (k : Nat) =>
     showList ((groupOf n.children (k : Int)).map (·.name))))
 
-def showItem : Item → String
+/-- body of a multiplexer; a child that is a multiplexer carries its own body in braces (looked up
+    by name among the nested nodes; `fuel` bounds the depth) -/
+def showBody (nested : List MuxNode) : Nat → MuxNode → String
+  | 0, _ => "?"
+  | fuel + 1, n =>
+    let ch := (n.children.mergeSort childLe).map (fun c =>
+      let base := s!"{c.name}@{c.rel}/{n.start + n.selW + c.rel}+{c.size}:{showIds c.gids}"
+      if c.isMux then
+        match nested.find? (fun x => x.name == c.name) with
+        | some sub => base ++ "{" ++ showBody nested fuel sub ++ "}"
+        | none => base ++ "{?}"
+      else base)
+    s!"w={n.selW},gc={n.groupCount},gs={n.groupSize},ch={showList ch},g={showGroups n}"
+
+def showItem (nested : List MuxNode) : Item → String
   | .sig l => s!"s:{l.name}@{l.start}+{l.size}"
-  | .mux n =>
-    let ch := (n.children.mergeSort childLe).map (showChild n)
-    s!"M:{n.name}@{n.start}+{n.groupSize + n.selW}(w={n.selW},gc={n.groupCount},gs={n.groupSize},ch={showList ch},g={showGroups n})"
+  | .mux n => s!"M:{n.name}@{n.start}+{n.groupSize + n.selW}({showBody nested (nested.length + 1) n})"
 
 def showTree (t : ITree) : String :=
-  s!"id={t.id} size={t.sizeByte} be={showFlag t.bigEndian} top={showList (t.top.map showItem)}"
+  s!"id={t.id} size={t.sizeByte} be={showFlag t.bigEndian} top={showList (t.top.map (showItem t.nested))}"
 
 def showInd (s : DSig) : String :=
   if s.isMultiplexed && s.isMultiplexor then s!"m{s.muxSwitch}M"
@@ -134,8 +164,8 @@ def handleExport (payload : String) : String :=
   match Json.parse payload >>= dTree with
   | .error e => "bad-op " ++ e
   | .ok t =>
-    match build t with
-    | .ok t' => "ok " ++ showMsg (exportMsg t')
+    match buildAny t with
+    | .ok t' => "ok " ++ showMsg (exportAny t')
     | .error e => "err " ++ showErr e
 
 def handle (args : List String) : String :=
